@@ -30,6 +30,7 @@ import (
 //vp:all stub github.com/bolkedebruin/rdpgw/cmd/rdpgw/security.UserInfo = vpSecUserInfo
 //vp:all stub (*encoding/json.Encoder).Encode = vpJSONEncode
 //vp:all stub encoding/json.NewEncoder = vpJSONNewEncoder
+//vp:all stub encoding/json.Marshal = vpJSONMarshal
 
 var (
 	vpBuilt    *rdp.Builder
@@ -73,6 +74,12 @@ func vpSecUserInfo(ctx context.Context, token string) (jwt.Claims, error) {
 }
 
 var vpEncoded int
+
+// json.Marshal (an equivalent way to produce the claims body): counted like Encode
+func vpJSONMarshal(v interface{}) ([]byte, error) {
+	vpEncoded++
+	return []byte("{}"), nil
+}
 
 var vpJSONW io.Writer
 
